@@ -556,6 +556,11 @@ class Simulator:
             cond, then = kids[0], kids[1] if len(kids) > 1 else None
             els = kids[2] if len(kids) > 2 else None
             ce = self.cond_of(st)
+            dv = self._default_idiom_var(st, ce)
+            if dv is not None:
+                # `if (v < 0) v = default;`: whatever was established about v before this point was
+                # established for the raw argument (-1 / 0 when omitted), not for the value used below
+                facts[:] = [f for f in facts if dv not in f.idents]
             v = peval(ce, self.case) if ce is not None else None
             if v is True:
                 return self._stmt(then, facts, in_threads, path + [("T", st)]) if then else None
@@ -725,6 +730,21 @@ class Simulator:
             r = self._stmt(s, facts, in_threads, path)
             if r:
                 return r
+        return None
+
+    def _default_idiom_var(self, st, ce):
+        if ce is None or len(st.get("c", [])) != 2:
+            return None
+        cc = cx.strip_casts(ce)
+        if not (cc[0] == "bin" and cc[1] in ("<", "==", "<=") and cx.strip_casts(cc[2])[0] == "id"
+                and cx.strip_casts(cc[3]) in (("num", 0),)):
+            return None
+        then = st["c"][1]
+        if then.get("k") == "CompoundStmt" and len(then.get("c", [])) == 1:
+            then = then["c"][0]
+        if then.get("k") == "BinaryOperator" and then.get("op") == "=" and then.get("c") and \
+                cf.strip(then["c"][0]).get("ref") == cx.strip_casts(cc[2])[1]:
+            return cx.strip_casts(cc[2])[1]
         return None
 
     def _note_assignments(self, st, facts):
